@@ -13,6 +13,25 @@ MUTATORS = {"append", "extend", "insert", "pop", "popleft", "appendleft", "remov
 class CallMixin:
 
     def e_Call(self, n, st, fx):
+        # map(f, it)  ==  (f(v) for v in it)  (lazily, as the generator expression it abbreviates)
+        if isinstance(n.func, ast.Name) and n.func.id == "map" and "map" not in st.env and len(n.args) == 2 and not n.keywords \
+                and not any(isinstance(a_, ast.Starred) for a_ in n.args) and self.prog.resolve(fx.module, "map") is None:
+            v_ = ast.Name(id="__map_item_%d" % n.lineno, ctx=ast.Load())
+            gen = ast.GeneratorExp(elt=ast.Call(func=n.args[0], args=[v_], keywords=[]),
+                                   generators=[ast.comprehension(target=ast.Name(id=v_.id, ctx=ast.Store()), iter=n.args[1], ifs=[], is_async=0)])
+            ast.copy_location(gen, n)
+            ast.fix_missing_locations(gen)
+            # the node that consumes the map() call consumes the generator: any(map(..)), x in map(..)
+            for parent in ast.walk(fx.func.node):
+                for fld, val in ast.iter_fields(parent):
+                    if val is n:
+                        setattr(parent, fld, gen)
+                    elif isinstance(val, list):
+                        for i_, x_ in enumerate(val):
+                            if x_ is n:
+                                val[i_] = gen
+            yield from self.ev(gen, st, fx)
+            return
         # getattr(obj, "const", default): resolved as an attribute access
         if isinstance(n.func, ast.Name) and n.func.id == "getattr" and n.func.id not in st.env and len(n.args) in (2, 3):
             yield from self._getattr_call(n, st, fx)
@@ -453,6 +472,11 @@ class CallMixin:
             return
         if tail[-1] == "attrgetter" and args and all(is_const(a) and isinstance(a[1], str) for a in args):
             yield "ok", ("attrgetter", tuple(a[1] for a in args)), st
+            return
+        if len(tail) >= 2 and tail[-2] == "operator" and tail[-1] in ("lt", "le", "gt", "ge", "eq", "ne") and len(args) == 2 and not kw:
+            # operator.le(a, b)  ==  a <= b
+            op_ = {"lt": "<", "le": "<=", "gt": ">", "ge": ">=", "eq": "==", "ne": "!="}[tail[-1]]
+            yield "ok", self.cmp_term(op_, args[0], args[1]), st
             return
         if tail[-1] == "methodcaller" and args and is_const(args[0]) and isinstance(args[0][1], str):
             yield "ok", ("methodcaller", args[0][1], tuple(args[1:])), st
